@@ -37,10 +37,11 @@ Print Assumptions C09_hint_irrelevant.
    reported active again, after any history *)
 Theorem C09_inactive_stays_inactive :
   forall cfg s h i e tampered scopes,
-  Inv s -> nth_error (log s) i = Some e -> i_kind e <> KImplicit -> access (st s) (i_key e) = None -> rt_dead (st s) (i_key e) ->
+  Inv s -> nth_error (log s) i = Some e ->
+  access (st s) (i_key e) = None -> implicit (st s) (i_key e) = None -> rt_dead (st s) (i_key e) ->
   introspect_access cfg (run cfg s h) (Some (i_key e)) tampered scopes = None /\
   introspect_refresh cfg (run cfg s h) (Some (i_key e)) tampered scopes = None.
-Proof. exact inactive_forever. Qed.
+Proof. exact inactive_forever_any. Qed.
 Print Assumptions C09_inactive_stays_inactive.
 
 (* the endpoint answers only callers with valid client credentials or a valid, different, active access token *)
